@@ -1,6 +1,6 @@
 """C14 — reported sizes and dedup metrics are conserved (mirsym Mode A)."""
 import os, re
-from mirsym import mir, symex, smt
+from mirsym import mir, symex, smt, modeb
 from mirsym.symex import bvconst, mk_and, mk_not, mk_eq
 from mirsym_run import Q
 from common import *
@@ -16,7 +16,7 @@ ASSUMPTIONS = [
     "calls (local dedup query, fragmentation decision, segment bookkeeping, xorb cut) are havocked: every outcome is considered",
     "counters do not overflow usize (the overflow checks of the dev profile are separate verification conditions on the same paths)",
 ]
-OUTSIDE = ["equality of xorb_bytes_uploaded with what the store received under all completion orders of background uploads (tokio)"]
+OUTSIDE = ["the client's own byte count per put (what it reports as transmitted) is taken as given", "task completion orders beyond: the snapshot is taken after every task was joined"]
 
 
 def metric_fields():
@@ -127,6 +127,38 @@ def build_merge(fns):
     return [sc]
 
 
+def build_snapshot(fns):
+    """finalize_impl: the session metrics are read out only after every background upload task was joined
+    (the tasks add the bytes they transmitted to the session metrics when they complete)."""
+    g = modeb.CFG(mir.find_fn(fns, r"file_upload_session::.*finalize_impl::\{closure#0\}$"))
+    snap = g.blocks_calling(r"std::mem::take::<DeduplicationMetrics>$|mem::take$")
+    snap = [b for b in snap if "DeduplicationMetrics" in g.term[b]["func"]]
+    J = g.blocks_calling(r"JoinSet::<.*>::join_next$")
+    TBJ = [b for b in g.blocks_calling(r"as Try>::branch$") if "JoinError" in g.callee(b)]
+    if not (snap and J and TBJ):
+        raise LookupError("finalize_impl shape not recognised: snapshot=%s join=%s" % (snap, J))
+    sc = smt.Script("c14_metrics_snapshot_after_joins")
+    modeb.no_path_query(g, sc, "metrics snapshot only after the upload join loop was entered", [g.entry], snap, J)
+    modeb.no_path_query(g, sc, "no upload task is joined after the metrics snapshot", modeb.after(g, snap), J, [])
+    modeb.no_path_query(g, sc, "after a task result was consumed, the snapshot is taken only after join_next was asked again (loop exits on None only)", modeb.after(g, TBJ), snap, J)
+    modeb.no_path_query(g, sc, "witness: snapshot reachable", [g.entry], snap, [], expect="sat", kind="witness")
+    return [sc]
+
+
+def replay_snapshot(model, fnd, prop):
+    env = base_env()
+    env["CARGO_TARGET_DIR"] = os.path.join(BUILD, "replay_target")
+    rc, out = sh(["cargo", "test", "--offline", "--test", "c14_xorb_bytes_uploaded_snapshot"], cwd=os.path.join(VERIF, "replay"), env=env, timeout=2400,
+                 log=os.path.join(LOGS, "replay_c14b.log"))
+    path = os.path.join(VERIF, "replay", "tests", "c14_xorb_bytes_uploaded_snapshot.rs")
+    if "test result: FAILED" in out and "C14 violated" in out:
+        m = re.search(r"C14 violated: [^\n\[]*", out)
+        return True, path, m.group(0) if m else "native replay fails"
+    if "test result: ok. 1 passed" in out:
+        return False, path, "native replay passes: reported upload bytes account for the stored xorb"
+    return None, path, "native replay inconclusive (rc=%s)" % rc
+
+
 def replay(model, fnd, prop):
     env = base_env()
     env["CARGO_TARGET_DIR"] = os.path.join(BUILD, "replay_target")
@@ -142,6 +174,8 @@ def replay(model, fnd, prop):
 
 
 SMT = [
+    Q("c14_metrics_snapshot", "session metrics are read out after all upload tasks were joined (Mode B)", "data", build_snapshot,
+      functions=["data::file_upload_session::FileUploadSession::finalize_impl"], bounds="all CFG paths", replay=replay_snapshot, solvers=("z3", "cvc5-bv")),
     Q("c14_loop_step", "conservation laws as an inductive step of process_chunks' result loop", "deduplication", build_loop,
       functions=["deduplication::file_deduplication::FileDeduper::process_chunks (result-processing loop body)"], bounds="one iteration from an arbitrary state", replay=replay),
     Q("c14_merge_in", "DeduplicationMetrics::merge_in is a field-wise sum", "deduplication", build_merge,
